@@ -789,6 +789,29 @@ fn run_closure_capture(ops: &[Op]) {
         if r.is_err() { fail("closure_capture", ops, last, format!("compile() panicked on a closure that captures {n_outer} + {n_mid} variables (expected a program or a compilation error)")); }
         return;
     }
+    if ops[0].0 % 4 == 2 && ops[0].1 % 2 == 1 {
+        // a closure created inside a called closure captures that frame's local, wherever the frame sits on the stack
+        let pad = (ops[0].2.unsigned_abs() % 4) as usize;
+        let inner: Card = CardBody::Closure(Box::new(Function::default().with_cards(vec![Card::set_global_var("gx", Card::read_var("x0")), Card::set_global_var("g", Card::read_var("y"))]))).into();
+        let mut mid: Vec<Card> = (0..pad).map(|k| Card::set_var(format!("q{k}"), Card::scalar_int(k as i64))).collect();
+        mid.extend(vec![Card::set_var("y", Card::scalar_int(20)), Card::set_var("inner", inner), Card::dynamic_call(Card::read_var("inner"), vec![])]);
+        let outer: Card = CardBody::Closure(Box::new(Function::default().with_cards(mid))).into();
+        let mut cards: Vec<Card> = (0..1 + pad).map(|k| Card::set_var(format!("x{k}"), Card::scalar_int(1 + k as i64))).collect();
+        cards.extend(vec![Card::set_var("outer", outer), Card::dynamic_call(Card::read_var("outer"), vec![])]);
+        let module = Module { functions: vec![("main".to_string(), Function::default().with_cards(cards))], ..Default::default() };
+        let program = compile(module, None).unwrap();
+        let mut vm = Vm::new(()).unwrap().with_max_iter(100_000);
+        let r = vm.run(&program);
+        let g = vm.read_var_by_name("g", &program.variables);
+        let gx = vm.read_var_by_name("gx", &program.variables);
+        if r.is_ok() && !matches!(gx, Some(Value::Integer(1))) {
+            fail("closure_capture", ops, last, format!("inner closure reads x0 (a local of main, 1) and y (a local of the enclosing closure, 20) as gx = {gx:?}, g = {g:?}"));
+        }
+        if r.is_err() || !matches!(g, Some(Value::Integer(20))) {
+            fail("closure_capture", ops, last, format!("main {{ x..; outer = || {{ y = 20; inner = || {{ g = y }}; inner() }}; outer() }} gives g = {g:?} (run {:?}), expected 20", r.map(|_| ()).map_err(|e| e.payload)));
+        }
+        return;
+    }
     let (kind, outer, depth) = (ops[0].0 % 3, ops[0].1 as i64 + 100, 1 + (ops[0].2.unsigned_abs() % 2) as usize);
     let name = ["i", "v", "k"][kind as usize];
     let mut reader: Card = CardBody::Closure(Box::new(Function::default().with_cards(vec![Card::set_global_var("seen_by_closure", Card::read_var(name))]))).into();
